@@ -1338,6 +1338,7 @@ extern "C" {
     /* free s's descendants, but not s */
     dr_free_dag(s, 0, fl);
     s->info.cur_node_count = 1;
+    s->info.min_node_count = 1;
   }
 
   /* sum of all logical node counts */
